@@ -8,7 +8,7 @@ from harness.drivers import c04
 chk = Check("C04X")
 base = {"op": "none", "kind": "cp", "shape": [], "rank": [], "family": "generic", "how": "function", "mode": 0, "operand": "none", "odim": 0,
         "keep": False, "copy": False, "npad": 0, "padb": False, "lens": [], "maxrank": 0, "thr": 0, "listin": False,
-        "fshapes": [], "coreshape": [], "pshapes": []}
+        "fshapes": [], "coreshape": [], "pshapes": [], "rshapes": []}
 def cfg(**kw):
     c = dict(base); c.update(kw); return c
 evs = []
@@ -36,6 +36,10 @@ s = run("good_svd", cfg(op="svd_roundtrip", kind="p2", shape=[2, 3], rank=[2], l
                         fshapes=[[2, 2], [2, 2], [3, 2]], pshapes=[[2, 2], [3, 2]]))
 mut(s, "svd_recon", lambda e: e["out"]["recon"][1]["q"].__setitem__(0, e["out"]["recon"][1]["q"][0] + 100))
 mut(s, "svd_orth", lambda e: e["out"].__setitem__("orth", 100000))
+v = run("good_compress", cfg(op="svd_compress", kind="slices", shape=[2, 3], rank=[3], lens=[1, 4], family="lowrank", maxrank=0, thr=0,
+                             fshapes=[[1, 1], [4, 3]], rshapes=[[1, 3], [3, 3]]))
+mut(v, "compress_truncated", lambda e: e["out"]["recon"][1]["q"].__setitem__(0, e["out"]["recon"][1]["q"][0] + 100))
+mut(v, "compress_domain", lambda e: e["cfg"].__setitem__("maxrank", 1))
 good = {e["id"] for e in evs if e["id"].startswith("good")}
 rej = chk.validate("TransformsTrace", evs)
 for r in sorted(rej): print(r[:2])
